@@ -153,12 +153,17 @@ Proof. intros [-> | [x ->]]; [auto|]. apply keys_only_tasks. reflexivity. Qed.
 Lemma uniq_do_start_task sp s tid f r x : uniq s -> uniq (fst (do_start_task sp s tid f r x)).
 Proof.
   intros Hu. unfold do_start_task. cbv zeta. destruct (Nat.leb _ _); [exact Hu|].
+  assert (Hk : forall s', keys s' = keys s -> uniq s') by (intros s' H; apply (uniq_keys s); assumption).
   destruct f.
   - destruct (is_idle _); simpl; apply uniq_commit, uniq_check_affected; simpl; [|exact Hu].
-    apply (uniq_keys s); [|exact Hu]. unfold keys. simpl. apply map_set_nth with (d := dummy_trow). reflexivity.
-  - destruct (state_eqb _ SUCCESS); [exact Hu|]. simpl.
-    apply uniq_commit, uniq_check_affected. simpl.
-    apply (uniq_keys s); [|exact Hu]. unfold keys. simpl. apply map_set_nth with (d := dummy_trow). reflexivity.
+    apply Hk. unfold keys. simpl. apply map_set_nth with (d := dummy_trow). reflexivity.
+  - destruct (negb r && negb (is_idle _)); [exact Hu|].
+    destruct (negb r).
+    + simpl. apply uniq_commit, uniq_check_affected. simpl.
+      apply Hk. unfold keys. simpl. apply map_set_nth with (d := dummy_trow). reflexivity.
+    + destruct (state_eqb _ SUCCESS); [exact Hu|]. simpl.
+      apply uniq_commit, uniq_check_affected. simpl.
+      apply Hk. unfold keys. simpl. apply map_set_nth with (d := dummy_trow). reflexivity.
 Qed.
 
 Lemma uniq_do_result sp s aid res : uniq s -> uniq (fst (do_result sp s aid res)).
